@@ -19,7 +19,7 @@ from __future__ import annotations
 import re
 from fractions import Fraction as F
 
-from harness import core
+from harness import core, fr
 from harness.core import gq, gstr, glist, gopt
 
 TOKEN = re.compile(r"\s*(?:(\d+\.?\d*(?:[eE][-+]?\d+)?|\.\d+(?:[eE][-+]?\d+)?)|([A-Za-z_][A-Za-z0-9_\[\]\.]*)|(<=|>=|\*\*|.))")
@@ -724,13 +724,14 @@ def gdie(die):
     return f'(mkRect {gq(W / 2)} {gq(H / 2)} {gq(W)} {gq(H)} false false "_"%string NOPOLY)'
 
 
-def gen_call(eps, t, die, mods, areas, pow32, cells, edges):
+def gen_call(eps, t, die, mods, areas, pow32, cells, edges, gdie_text=None):
     from harness.props import c10
     from harness.props import alloc_common as ac
+    D = gdie_text if gdie_text is not None else gdie(die)
     P = glist([f"({gq(a)}, {gq(p)})" for a, p in pow32])
     A = glist([f"({gstr(m['name'])}, {gq(areas[m['name']])})" for m in mods if not m["hard"] and m["name"] in areas])
     E = glist([glist([gstr(n) for n in e]) for e in edges])
-    return (f"(gen_system (pow32_of {P}) {gq(eps)} {gq(t)} {gdie(die)} {c10.gmodules(mods)} {A} "
+    return (f"(gen_system_fast (pow32_of {P}) {gq(eps)} {gq(t)} {D} {c10.gmodules(mods)} {A} "
             f"{ac.gcells(cells)} {E})")
 
 
@@ -792,14 +793,15 @@ def linear_forms(can):
 
 
 def occupancy_gaps(case, obs, can):
+    return occupancy_gaps_of([m["name"] for m in case["mods"]], len(obs["cells"]), obs["cap"], can)
+
+
+def occupancy_gaps_of(names, ncells, cap, can):
     """Cells whose occupancy (what extract_solution will read: sum over the netlist modules of model.a[name][c]) is
     NOT forced to be <= 1 by a captured inequality (directly, or after replacing a variable by the captured
     equality that defines it as a sum of other ratios), and ratio variables without the bounds [0, 1].
     Sound as a filter: an empty answer means every feasible point has all occupancies <= 1 + (1 + #links) * tol."""
-    cap = obs["cap"]
     consts = cap["consts"]["a"]
-    names = [m["name"] for m in case["mods"]]
-    ncells = len(obs["cells"])
     bounds = {v: (lb, ub) for v, lb, ub in can["vars"]}
     lin = linear_forms(can)
     les = [(co, k) for eq, co, k in lin if not eq]
@@ -936,3 +938,163 @@ def probe_system(case, gaps, loose, max_cells=3):
         return (f"{h['key']}: {h['why']} - returned by the real solver and extract_solution for {h['stage']} "
                 f"(the captured system does not bound the occupancy of cells {gaps})")
     return None
+
+
+# ======================================================================================
+# kind "run": the system of every optimisation inside a real glbfloor run
+# ======================================================================================
+RUN_SYSTEM_LIMIT = 260          # (entries of `modules`) x (cells) up to which the recorded system is compared in Coq
+
+
+def run_system_expr(it):
+    mods = it["mods_before"]
+    ncells = len(it["in_cells"])
+    nprob = sum(len(m["rects"]) if (m["hard"] and not m["fixed"]) else 1 for m in mods)
+    if nprob * ncells > RUN_SYSTEM_LIMIT:
+        return None
+    can = canonical(it["cap"])
+    call = gen_call(it["eps"], it["t"], None, mods, it["areas"], it["pow32"], it["in_cells"], it["edges"],
+                    gdie_text=fr.grect(it["die_rect"]))
+    if can["problems"] and all(p.startswith("duplicate-name:") or p.startswith("variable-denotes-twice:")
+                               for p in can["problems"]):
+        return f"raises_cmp {call}"
+    return system_expr(call, can)
+
+
+def run_raises_expr(it):
+    call = gen_call(it["eps"], it["t"], None, it["mods_before"], it["areas"], it["pow32"], it["in_cells"], it["edges"],
+                    gdie_text=fr.grect(it["die_rect"]))
+    return f"raises_cmp {call}"
+
+
+def oracle_run_systems(case, obs):
+    """Every optimisation of the run: does the system it built force occupancy <= 1?  If not, probe it."""
+    for k, it in enumerate(obs.get("iters", [])):
+        if "cap" not in it or "mods_before" not in it:
+            continue
+        can = canonical(it["cap"])
+        if can["problems"]:
+            continue
+        names = [m["name"] for m in it["mods_before"]]
+        gaps, loose = occupancy_gaps_of(names, len(it["in_cells"]), it["cap"], can)
+        if gaps or loose:
+            return probe_run(case, k, gaps, loose)
+    return None
+
+
+def probe_run(case, k, gaps, loose, max_cells=3):
+    from harness.props import c10
+    from harness.props import alloc_common as ac
+    from gekko.gk_variable import GKVariable
+
+    def hook(model, die, cells, threshold, orig_solve):
+        g = model.gekko
+        targets = [("cell", c) for c in gaps[:max_cells]] + [("var", v) for v in loose[:1]]
+        for kind, tg in targets:
+            if kind == "cell":
+                terms = [model.a[m.name][tg] for m in die.netlist.modules
+                         if m.name in model.a and isinstance(model.a[m.name].get(tg), GKVariable)]
+            else:
+                terms = [model.a[tg[1]][tg[2]]]
+            if not terms:
+                continue
+            obj = terms[0]
+            for tm in terms[1:]:
+                obj = obj + tm
+            g._objectives = []
+            g.Maximize(obj)
+            try:
+                d2, alloc, _, _ = orig_solve(model, die, cells, threshold)
+            except Exception:
+                continue
+            out_cells = ac.alloc_obs(alloc)["cells"]
+            out_mods = [c10.module_obs(m) for m in d2.netlist.modules]
+            return {"target": [kind, tg], "cells": out_cells, "mods": out_mods}
+        return None
+
+    obs = c10.run_run(case, probe=(k, hook))
+    res = obs.get("probe")
+    if obs.get("status") != "probed" or not res:
+        return None
+    r = c10.check_result(obs["die"], obs["mods0"], res["mods"], res["cells"], c10.TOL)
+    if not r:
+        return None
+    return (f"{r[0]}: {r[1]} - returned by the real solver and extract_solution at optimisation {k + 1} of the run for "
+            f"the variables, bounds and equations the code built, with the objective replaced by 'maximise the "
+            f"occupancy of {res['target'][0]} {res['target'][1]}' (the captured system does not bound the occupancy of "
+            f"cells {gaps})")
+
+
+# ======================================================================================
+# generators for real runs: names with prefix relations, ties
+# ======================================================================================
+RUN_NAME_SCHEMES = [
+    None,                                                                     # keep H<k> / S<k> / F<k>
+    (["H1", "H10", "H1_", "H2"], ["H1_io", "H1_x", "H10_", "H1__0", "H1_7"], ["H1_f", "F", "H1_fixed"]),
+    (["M", "a_b", "x"], ["M_", "a_b_c", "x_a", "v1", "d_x"], ["M_fixed", "a", "sum_1"]),
+    (["A", "B", "C"], ["A0", "A_b", "Ab", "A_", "B_1x"], ["B_", "B__", "C_x"]),
+]
+
+
+def decorate_run(rng, case):
+    """Rename the modules of a generated run (names that are prefixes of each other / of internal names / equal to
+    names of GEKKO variables); rarely: the internal name of a rectangle of a movable hard module."""
+    scheme = rng.choice([0, 0, 1, 1, 2, 3])
+    clash = rng.random() < 0.06
+    if scheme == 0 and not clash:
+        return case
+    mods = case["netlist"]["Modules"]
+    pools = [list(p) for p in (RUN_NAME_SCHEMES[scheme] or (["H0", "H1", "H2", "H3", "H4", "H5"],
+                                                             ["S0", "S1", "S2", "S3", "S4", "S5"], ["F0", "F1", "F2"]))]
+    for p in pools:
+        rng.shuffle(p)
+    ren = {}
+    for n, d in mods.items():
+        pool = pools[2] if d.get("fixed") else (pools[0] if d.get("hard") else pools[1])
+        ren[n] = pool.pop() if pool else f"Z{len(ren)}"
+    if clash:
+        hard = [n for n, d in mods.items() if d.get("hard") and not d.get("fixed")]
+        others = [n for n, d in mods.items() if d.get("fixed")] or [n for n in mods if n not in hard]
+        if hard and others:
+            h = rng.choice(hard)
+            ren[rng.choice(others)] = f"{ren[h]}_{rng.randrange(0, len(mods[h]['rectangles']))}"
+    if len(set(ren.values())) != len(ren):
+        return case
+    out = dict(case)
+    out["netlist"] = {"Modules": {ren[n]: d for n, d in mods.items()},
+                      "Nets": [[ren.get(x, x) if isinstance(x, str) else x for x in e] for e in case["netlist"]["Nets"]]}
+    return out
+
+
+def gen_run_tie(rng):
+    """Soft modules of area 1 centred in 2x2 (ratio 1/4) or 2x1 (ratio 1/2) ground cells next to a fixed strip,
+    threshold 3/4, 1/2 or 1 (ratio == 1 - threshold exactly / ratio 0 == 1 - 1), everything attracted to the fixed
+    module with alpha near 1."""
+    H = rng.choice([2, 2, 1])
+    nblocks = rng.choice([1, 1, 2])
+    W = 2 * nblocks + 1
+    t = rng.choice([0.75, 0.75, 1.0, 0.5]) if H == 2 else rng.choice([0.5, 0.5, 1.0, 0.75])
+    fname = rng.choice(["F1", "F1", "H1_f", "S1_0"])
+    modules = {fname: {"fixed": True, "rectangles": [[W - 0.5, H / 2, 1.0, float(H)]]}}
+    names = []
+    k = rng.choice([1, 2, 2, 3])
+    soft_names = rng.choice([["S1", "S2", "S3"], ["H1_io", "H1_x", "S1"], ["a", "a_b", "a_b_0"]])
+    for i in range(k):
+        bx = rng.randrange(nblocks)
+        modules[soft_names[i]] = {"area": 1.0 if H == 2 else rng.choice([1.0, 0.5]), "center": [2.0 * bx + 1.0, H / 2]}
+        names.append(soft_names[i])
+    if rng.random() < 0.3 and H == 2:
+        modules["H1"] = {"hard": True, "rectangles": [[0.5, 0.5, 1.0, 1.0]]}
+        names.append("H1")
+    nets = [[n, fname, float(rng.choice([1, 2, 5]))] for n in names]
+    if len(names) >= 2:
+        nets.append(names[:2])
+    if len(names) >= 3 and rng.random() < 0.5:
+        nets.append(names[:3] + [fname])
+    order = list(modules)
+    rng.shuffle(order)
+    init = ["none", 1, 1] if nblocks == 1 else ["split", 2, nblocks]
+    return {"kind": "run", "die": {"width": float(W), "height": float(H), "regions": []},
+            "netlist": {"Modules": {n: modules[n] for n in order}, "Nets": nets},
+            "init": init, "t": t, "alpha": rng.choice([1.0, 1.0, 0.9, 0.5]), "max_iter": rng.choice([1, 1, 2]),
+            "style": "tie"}
